@@ -1,12 +1,14 @@
 """C10 — operations are pure: results independent of call history and thread schedule."""
 from vcore import Case
-from dlib import Par, ALL, keygen, sign, crate, fmt_arg
+from dlib import Par, ALL, API_OF, keygen, sign, crate, fmt_arg
 import pyref
 
 RULE = ("histories mixing all six sets and all operations (seeded keygen, deterministic signing, verification incl. rejected and sibling-scheme inputs, "
         "several keys per process) evaluated in isolation and then shuffled on 1..16 barrier-started threads; every interleaved result must equal the "
         "isolated one (harness probe `purity`); dirty output buffers for the slice-taking functions (signature into a 0xA5-filled / random buffer, "
         "packing into dirty buffers) must not change results; a sample of the operations is also compared with the model (stateless by construction). "
+        "Key OBJECTS reused after their public byte fields were overwritten in place must behave like fresh ones; a schedule probe with 64..256 KiB "
+        "messages (long hashing widens check-then-use windows) on 2..16 threads alternating between two keys. "
         "Advisory source scan for static mut / unsafe / thread_local outside the hook module. Non-trivial = every interleaved evaluation.")
 ASSUMPTIONS = ["data races and scheduler effects cannot be exhibited by a Gallina model: proved is that the modelled code has no state to race on, observed is that "
                "the real code behaves like it under the interleavings tried"]
@@ -131,9 +133,41 @@ def history_probe(rep, cov, tier, rng):
     cov["distinct_nontrivial"] = cov.get("distinct_nontrivial", 0) + len(ops)
 
 
+def object_and_race_probes(rep, cov, tier, rng):
+    """(a) one Keypair / PublicKey OBJECT used under key A, overwritten in place with key B (the byte fields are public) and
+    used again: results must be those of a fresh object holding B (state memoised inside the object would show);
+    (b) schedule probe with LONG messages (hashing a long message widens any check-then-use window on shared state): threads
+    hammering two keys alternately, every genuine signature must verify."""
+    n = 0
+    for cp in ALL:
+        p = Par(cp); api = API_OF[cp]
+        (pkA, skA), (pkB, skB) = (pyref.keygen(p, bytes(rng.randrange(256) for _ in range(32))) for _ in range(2))
+        m = bytes(rng.randrange(256) for _ in range(30))
+        mp = m if not p.mldsa else bytes([0, 0]) + m
+        sA, sB = pyref.sign(p, skA, mp), pyref.sign(p, skB, mp)
+        for dev in (True, False):
+            r = crate([("obj_reuse", api, [skA, pkA, skB, pkB, m, sA, sB])], dev=dev)[0]
+            n += 1
+            if r is None or r != [1, 1, 1]:
+                rep.violation("a key object reused after its bytes were overwritten in place behaves differently from a fresh object (%s): "
+                              "[verify under first key, verify under second key, signature equals fresh object's] = %s" % (api, r),
+                              {"cases": [{"fn": "obj_reuse", "copy": api, "args": [fmt_arg(x) for x in (skA, pkA, skB, pkB, m, sA, sB)]}]}, True)
+        plan = [(4, 24, 1 << 17)] if tier == "quick" else [(2, 150, 1 << 18), (8, 60, 1 << 18), (16, 40, 1 << 16)]
+        for threads, iters, mlen in plan:
+            r = crate([("verify_race", cp, [threads, iters, mlen])])[0]
+            n += threads * iters
+            if r is None or r[1] != 0:
+                rep.violation("verification of genuine signatures fails under concurrency (%s): %s of %s verifications on %d threads with %d-byte messages "
+                              "returned false" % (cp, "?" if r is None else r[1], "?" if r is None else r[0], threads, mlen),
+                              {"cases": [{"fn": "verify_race", "copy": cp, "args": [str(threads), str(iters), str(mlen)]}]}, True)
+    cov["object_reuse_and_race_probe_evaluations"] = n
+    cov["evaluations"] = cov.get("evaluations", 0) + n
+
+
 def extra(rep, cov, tier, rng):
     import subprocess
     history_probe(rep, cov, tier, rng)
+    object_and_race_probes(rep, cov, tier, rng)
     calls = []
     plan = [(1, 2), (2, 2), (4, 2), (8, 2), (16, 2)] if tier == "quick" else [(t, 6) for t in (1, 2, 3, 4, 6, 8, 12, 16)]
     for threads, rounds in plan:
